@@ -11,7 +11,7 @@ use crate::sut::{LangCfg, LangId, LibOutcome, SrcFile, ALL_LANGS};
 use serde_json::json;
 use std::collections::BTreeSet;
 
-const UNITS: [(&str, &str); 17] = [
+const UNITS: [(&str, &str); 20] = [
     ("\n", "newline"),
     ("*/", "star-slash"),
     ("/*", "slash-star"),
@@ -31,6 +31,10 @@ const UNITS: [(&str, &str); 17] = [
     ("\"\"\"\"", "four-double-quotes"),
     ("\"", "double-quote"),
     ("**/", "star-star-slash"),
+    // text that looks like something a target language's tools give meaning to
+    ("//nolint:gosec", "slash-slash-directive"),
+    ("http://localhost:8080/api", "url-with-port"),
+    ("# type: ignore", "hash-directive"),
 ];
 const POSITIONS: [&str; 7] = ["type", "field", "unit-variant", "tagged-variant", "struct-variant-field", "alias", "tagged-type"];
 
@@ -281,7 +285,16 @@ pub fn run(ctx: &Ctx) -> (Spec, Report) {
             let style = *rng.pick(&[DocStyle::Line, DocStyle::Block, DocStyle::Attr]);
             let m = Model { units, position: if i < n_exh { i % POSITIONS.len() } else { rng.below(POSITIONS.len()) }, style, doc, n_sentinels, lines: if rng.chance(1, 3) { rng.range(2, 3) } else { 1 }, gutter: rng.coin() };
             let src = render(&m);
-            let langs = ALL_LANGS.iter().map(|l| (*l, LangCfg::basic(*l))).collect();
+            // package shapes and Swift / Go settings vary; the type prefix stays empty because the undocumented twin the
+            // definitions are compared with is generated once, without one
+            let langs = ALL_LANGS
+                .iter()
+                .map(|l| {
+                    let mut c = LangCfg::shaped(*l, rng);
+                    c.prefix = String::new();
+                    (*l, c)
+                })
+                .collect();
             Gen { model: m, files: vec![SrcFile { path: "src/lib.rs".into(), source: src }], multi: false, langs }
         },
         |case, rep| judge(case, rep, twin_ref),
